@@ -86,6 +86,8 @@ Section Props.
 
   Lemma nil_ok : out_ok [].
   Proof. split; [cbn; lia|left; reflexivity]. Qed.
+  Lemma nil_ok_skip : out_ok [EvSkip].
+  Proof. split; [cbn; lia|left; reflexivity]. Qed.
 
   Lemma resp_type_cases : conn ->
     (ty = NR_CON /\ dp_resp_type req = NR_ACK) \/ (ty = NR_NON /\ dp_resp_type req = NR_NON).
@@ -237,7 +239,7 @@ Section Props.
     - apply (after_handler_ok _ false); [exact Hc|discriminate].
     - apply (after_handler_ok _ (ty =? NR_CON)); [exact Hc|]. intros E. unfold NR_CON in *. lia.
     - apply (after_handler_ok _ false); [exact Hc|discriminate].
-    - apply finish_ok. exact Hc.
+    - destruct (dp_has DP_BLOCK2 (m_opts (sp_req' cfg req))); [apply nil_ok_skip|apply finish_ok; exact Hc].
     - apply (after_handler_ok _ false); [exact Hc|discriminate].
   Qed.
 
@@ -436,7 +438,7 @@ Proof.
   rewrite nr_fate_code_is_spec by assumption. reflexivity.
 Qed.
 
-Lemma dp_values_query_adj : forall cfg req, dp_query (sp_adjusted cfg req) = dp_query (m_opts req).
+Lemma dp_values_query_adj : forall cfg req, dp_query cfg (sp_adjusted cfg req) = dp_query cfg (m_opts req).
 Proof.
   intros cfg req. unfold dp_query.
   assert (H : dp_values DP_URI_QUERY (sp_adjusted cfg req) = dp_values DP_URI_QUERY (m_opts req)).
@@ -465,8 +467,8 @@ Theorem handler_sees_request : forall cfg req,
   map fst (sp_adjusted cfg req) = map fst (m_opts req) /\
   (forall n, n <> DP_BLOCK2 -> n <> DP_HOP_LIMIT ->
              dp_values n (sp_adjusted cfg req) = dp_values n (m_opts req)) /\
-  dp_uri_path (sp_adjusted cfg req) = dp_uri_path (m_opts req) /\
-  dp_query (sp_adjusted cfg req) = dp_query (m_opts req) /\
+  dp_uri_path cfg (sp_adjusted cfg req) = dp_uri_path cfg (m_opts req) /\
+  dp_query cfg (sp_adjusted cfg req) = dp_query cfg (m_opts req) /\
   m_payload (sp_req' cfg req) = m_payload req /\ m_token (sp_req' cfg req) = m_token req /\
   m_code (sp_req' cfg req) = m_code req /\ m_type (sp_req' cfg req) = m_type req /\
   m_mid (sp_req' cfg req) = m_mid req.
@@ -499,7 +501,7 @@ Theorem handler_call : forall cfg h mc req,
   sp_target cfg req <> TWellKnown ->
   dp_calls (sp_handler_out cfg h mc req) =
   [mkHreq (dp_target_rid (sp_target cfg req)) (m_code req) (sp_req' cfg req)
-          (dp_query (m_opts req))].
+          (dp_query cfg (m_opts req))].
 Proof.
   intros cfg h mc req Hwk. unfold sp_handler_out, dp_invoke.
   rewrite <- (dp_values_query_adj cfg req).
@@ -529,15 +531,15 @@ Qed.
 (* the built-in /.well-known/core resource: no application handler, a 2.05 with
    Content-Format 40 and the listing *)
 Theorem wellknown_out : forall cfg h mc req,
-  sp_target cfg req = TWellKnown ->
+  sp_target cfg req = TWellKnown -> dp_has DP_BLOCK2 (m_opts req) = false ->
   sp_handler_out cfg h mc req =
   dp_finish cfg mc (sp_req' cfg req) (Some NR_F_HAS_MCAST) false false
     (mkMsg (dp_resp_type req) 69 (m_mid req) (m_token req) [(DP_CONTENT_FORMAT, [40])]
-           (c_wk cfg (dp_query (m_opts req)))).
+           (c_wk cfg (dp_query cfg (m_opts req)))).
 Proof.
-  intros cfg h mc req Et. unfold sp_handler_out, dp_invoke. rewrite Et.
+  intros cfg h mc req Et Hb. unfold sp_handler_out, dp_invoke. rewrite Et.
   change (m_opts (sp_req' cfg req)) with (sp_adjusted cfg req).
-  rewrite dp_values_query_adj. reflexivity.
+  rewrite adj_has, Hb. rewrite dp_values_query_adj. reflexivity.
 Qed.
 
 (* the complete output when the handler runs on an ordinary or unknown resource *)
@@ -545,7 +547,7 @@ Theorem handler_out_is : forall cfg h mc req,
   (m_type req = NR_CON \/ m_type req = NR_NON) ->
   (match sp_target cfg req with TRes _ | TUnknown _ _ => True | _ => False end) ->
   let i := mkHreq (dp_target_rid (sp_target cfg req)) (m_code req) (sp_req' cfg req)
-                  (dp_query (m_opts req)) in
+                  (dp_query cfg (m_opts req)) in
   let r := h i in
   nr_std_code (hr_code r) -> hr_code r <> 168 ->
   sp_handler_out cfg h mc req =
@@ -561,7 +563,7 @@ Theorem handler_out_is : forall cfg h mc req,
   end.
 Proof.
   intros cfg h mc req Hty Ht. cbv zeta.
-  assert (Hq : dp_query (m_opts (sp_req' cfg req)) = dp_query (m_opts req))
+  assert (Hq : dp_query cfg (m_opts (sp_req' cfg req)) = dp_query cfg (m_opts req))
     by apply dp_values_query_adj.
   assert (Hnr : dp_noresp_of (sp_req' cfg req) = dp_noresp_of req).
   { unfold dp_noresp_of. change (m_opts (sp_req' cfg req)) with (sp_adjusted cfg req).
@@ -696,7 +698,8 @@ Qed.
 (* ---- non-vacuity: concrete servers and requests ---- *)
 Definition ex_handler (_ : dp_hreq) : dp_hresp := mkHresp 69 [(12, [0])] [104; 105].
 Definition ex_cfg : dp_cfg :=
-  mkCfg true [] [mkRes [97] 1 8; mkRes [98] 3 0] (Some (4, 0)) None (fun _ => [60; 47; 97; 62]).
+  mkCfg true [] [mkRes [97] 1 8; mkRes [98] 3 0] (Some (4, 0)) None (fun _ => [60; 47; 97; 62])
+        dp_unescaped_path dp_unescaped_query.
 Definition ex_get (ty : Z) (path : bytes) (extra : list opt) : msg :=
   mkMsg ty 1 4660 [170; 187] ((11, path) :: extra) [].
 
@@ -711,7 +714,7 @@ Example ex_handler_runs :
   [dp_serve ex_cfg ex_handler false (ex_get 0 [97] [])].
 Proof.
   split; [vm_compute; reflexivity|]. split; [vm_compute; reflexivity|].
-  split; [split; [discriminate|intros i; vm_compute; discriminate]|].
+  split; [split; [discriminate|split; [intros i; vm_compute; discriminate|intros H; vm_compute in H; discriminate]]|].
   vm_compute. reflexivity.
 Qed.
 
@@ -740,7 +743,7 @@ Example ex_rules :
   dp_serve ex_cfg ex_handler false (mkMsg 0 2 1 [] [(5, []); (11, [98])] []) =
     [EvTx true (mkMsg 2 140 1 [] [] [])] /\
   (* FETCH without Content-Format (a FETCH handler exists on /f) *)
-  dp_serve (mkCfg false [] [mkRes [102] 16 0] None None (fun _ => [])) ex_handler false
+  dp_serve (mkCfg false [] [mkRes [102] 16 0] None None (fun _ => []) dp_unescaped_path dp_unescaped_query) ex_handler false
            (mkMsg 0 5 1 [] [(11, [102])] []) = [EvTx true (mkMsg 2 143 1 [] [] [])] /\
   (* proxy option without proxy support *)
   dp_serve ex_cfg ex_handler false (mkMsg 0 1 1 [] [(3, [104]); (11, [97]); (39, [99])] []) =
@@ -912,6 +915,113 @@ Proof.
     + exact (Htail _ false _ _ _ _ Hin).
     + exact (Htail _ (m_type (sp_req' cfg req) =? NR_CON) _ _ _ _ Hin).
     + exact (Htail _ false _ _ _ _ Hin).
-    + exact (Hfin3 _ _ _ _ _ _ _ _ _ _ _ Hin Hrst).
+    + destruct (dp_has DP_BLOCK2 (m_opts (sp_req' cfg req))); [cbn in Hin; contradiction|].
+      exact (Hfin3 _ _ _ _ _ _ _ _ _ _ _ Hin Hrst).
     + exact (Htail _ false _ _ _ _ Hin).
+Qed.
+
+(* ---- the options echoed in the 4.02 of coap_dispatch(): only options of the request, only
+        offending ones (unknown critical, or a non-repeatable number), never Content-Format,
+        Hop-Limit or OSCORE ---- *)
+Lemma add_all_subset : forall l m o, In o (dp_add_all m l) -> In o l.
+Proof.
+  induction l as [|[n v] t IH]; intros m o; cbn [dp_add_all]; [tauto|].
+  destruct ((n =? m) && negb (dp_repeatable n)).
+  - intros H. right. eapply IH. exact H.
+  - intros [<- | H]; [left; reflexivity|right; eapply IH; exact H].
+Qed.
+
+Lemma mem_filter_ne : forall n k l,
+  dp_mem n (filter (fun j => negb (j =? k)) l) = true -> dp_mem n l = true /\ n <> k.
+Proof.
+  intros n k l. unfold dp_mem. induction l as [|j t IH]; cbn [filter existsb]; [discriminate|].
+  destruct (j =? k) eqn:E; cbn [negb].
+  - intros H. destruct (IH H) as [H1 H2]. split; [rewrite H1; apply orb_true_r|exact H2].
+  - cbn [existsb]. intros H. apply orb_true_iff in H as [H | H].
+    + split; [rewrite H; reflexivity|]. lia.
+    + destruct (IH H) as [H1 H2]. split; [rewrite H1; apply orb_true_r|exact H2].
+Qed.
+
+Lemma fget_funset : forall f k n, dp_fget (dp_funset f k) n = true -> dp_fget f n = true /\ n <> k.
+Proof.
+  intros f k n. unfold dp_fget, dp_funset. cbn [f_long f_short].
+  destruct (255 <? n); apply mem_filter_ne.
+Qed.
+
+Lemma mem_app_one : forall n k l, dp_mem n (l ++ [k]) = true -> dp_mem n l = true \/ n = k.
+Proof.
+  intros n k l. unfold dp_mem. rewrite existsb_app. cbn [existsb]. rewrite orb_false_r.
+  intros H. apply orb_true_iff in H as [H | H]; [left; exact H|right; lia].
+Qed.
+
+Lemma fget_fset : forall f k n, dp_fget (snd (dp_fset f k)) n = true -> dp_fget f n = true \/ n = k.
+Proof.
+  intros f k n. unfold dp_fset.
+  destruct (dp_fget f k); [cbn [snd]; auto|].
+  destruct (255 <? k) eqn:Ek.
+  - destruct (len (f_long f) <? 2); cbn [snd]; [|auto].
+    unfold dp_fget. cbn [f_long f_short]. destruct (255 <? n); [apply mem_app_one|auto].
+  - destruct (len (f_short f) <? 6); cbn [snd]; [|auto].
+    unfold dp_fget. cbn [f_long f_short]. destruct (255 <? n); [auto|apply mem_app_one].
+Qed.
+
+Lemma crit_loop_flt : forall known pctx l last s n,
+  dp_fget (cs_flt (dp_crit_loop known pctx l last s)) n = true ->
+  dp_fget (cs_flt s) n = true \/ lm_unk known pctx n = true \/ dp_repeatable n = false.
+Proof.
+  induction l as [|[k v] t IH]; intros last s n; cbn [dp_crit_loop]; [auto|].
+  set (s1 := match dp_crit_kind_of known pctx k with
+             | CritKnown => s
+             | CritUnknown => mkCs false (snd (dp_fset (cs_flt s) k)) (cs_crit s)
+             | CritProxyFwd => mkCs (cs_ok s) (cs_flt s) true end).
+  assert (Hs1 : dp_fget (cs_flt s1) n = true ->
+                dp_fget (cs_flt s) n = true \/ lm_unk known pctx n = true).
+  { unfold s1, lm_unk. destruct (dp_crit_kind_of known pctx k) eqn:EK; cbn [cs_flt]; auto.
+    intros H. apply fget_fset in H as [H | ->]; [auto|]. right. rewrite EK. reflexivity. }
+  destruct ((last =? k) && negb (dp_repeatable k)) eqn:Er.
+  - destruct (dp_fset (cs_flt s1) k) as [stored f2] eqn:Ef.
+    assert (Hf2 : dp_fget f2 n = true -> dp_fget (cs_flt s1) n = true \/ n = k).
+    { intros H. replace f2 with (snd (dp_fset (cs_flt s1) k)) in H by (rewrite Ef; reflexivity).
+      apply fget_fset. exact H. }
+    assert (Hk : dp_repeatable k = false).
+    { apply andb_true_iff in Er as [_ Er]. destruct (dp_repeatable k); [discriminate|reflexivity]. }
+    destruct stored.
+    + intros H. apply IH in H. cbn [cs_flt] in H. destruct H as [H | H]; [|auto].
+      apply Hf2 in H as [H | ->]; [|auto]. apply Hs1 in H. tauto.
+    + cbn [cs_flt]. intros H. apply Hf2 in H as [H | ->]; [|auto]. apply Hs1 in H. tauto.
+  - intros H. apply IH in H. destruct H as [H | H]; [|auto]. apply Hs1 in H. tauto.
+Qed.
+
+Theorem echo_sound : forall cfg req o,
+  In o (m_opts (match sp_err402_direct cfg req with EvTx _ m => m | _ => dp_empty 0 0 end)) ->
+  In o (dp_fix_block2 cfg req) /\
+  (sp_is_unknown cfg req (fst o) = true \/ dp_repeatable (fst o) = false) /\
+  fst o <> DP_CONTENT_FORMAT /\ fst o <> DP_HOP_LIMIT /\ fst o <> DP_OSCORE.
+Proof.
+  intros cfg req o. unfold sp_err402_direct, dp_error. cbn [m_opts]. unfold dp_error_opts.
+  intros H. apply add_all_subset in H. apply filter_In in H as [Hin Hf].
+  apply fget_funset in Hf as [Hf H9]. apply fget_funset in Hf as [Hf H16].
+  apply fget_funset in Hf as [Hf H12].
+  split; [exact Hin|]. split; [|auto].
+  unfold dp_check_critical in Hf. apply crit_loop_flt in Hf. cbn [cs_flt] in Hf.
+  rewrite dp_fget_empty in Hf. destruct Hf as [Hf | [Hf | Hf]]; [discriminate|left|right; exact Hf].
+  exact Hf.
+Qed.
+
+(* ---- the behaviour repaired by /repo 592fce7 is outside the relation: a Reset in reply to the
+        multicast NON of corpus/C10/mcast_rst.case (unknown critical option 13) ---- *)
+Example mcast_reset_refused :
+  let req := mkMsg 1 1 4660 [] [(11, [97]); (13, [])] [] in
+  dp_req_wf req /\ dp_in_scope ex_cfg ex_handler req /\
+  ~ dp_allowed ex_cfg ex_handler true req [EvTx false (dp_empty NR_RST 4660)] /\
+  dp_allowed ex_cfg ex_handler true req [] /\
+  dp_allowed ex_cfg ex_handler false req [EvTx false (dp_empty NR_RST 4660)].
+Proof.
+  cbv zeta. split; [repeat constructor; cbn; lia|].
+  split; [split; [discriminate|split; [intros i; vm_compute; discriminate|intros H; vm_compute in H; discriminate]]|].
+  split; [|split].
+  - unfold dp_allowed. vm_compute. intros H.
+    repeat (destruct H as [H | H]; [discriminate H|]). exact H.
+  - unfold dp_allowed. vm_compute. auto.
+  - unfold dp_allowed. vm_compute. auto.
 Qed.
